@@ -146,6 +146,26 @@ def end_of_life_runs_reverse_flagged_last_in_reverse_order(
         assert [t[1] for t in trace] == ["b", "c", "a"]
 
 
+@lemma(gen={"cycle": (0, 9), "node": (0, 9), "n": (0, 1)})
+def an_empty_or_one_interface_stack_is_handled_like_any_other(cycle: int, node: int, n: int, e0: bool, b0: bool, r0: bool, h0: bool):
+    """the lemmas above fix the stack at three interfaces: here the EMPTY stack (every event calls nobody, BOC reports no
+    halt, nothing raises) and a stack of ONE interface (enabled / forced / reverse-flagged / halting or not)"""
+    n = choose(n, 0, 1)
+    trace = []
+    ifs = [new(Rec, name="a", _enabled=e0, _bolForce=b0, reverseAtEOL=r0, trace=trace, halts=h0, coupler=None)][:n]
+    o = operator(ifs)
+    o.interactAllBOL()
+    halt = o.interactAllBOC(cycle)
+    o.interactAllEveryNode(cycle, node)
+    o.interactAllEOC(cycle)
+    o.interactAllEOL()
+    want = []
+    if n == 1:
+        want = ([("BOL", "a")] if e0 or b0 else []) + ([("BOC", "a", cycle), ("EveryNode", "a", cycle, node), ("EOC", "a", cycle), ("EOL", "a")] if e0 else [])
+    assert trace == want, "exactly the enabled (or BOL-forced) interface, once per event, with the current cycle and node"
+    assert bool(halt) == (n == 1 and e0 and h0), "a halt is reported only if a called interface asked for it"
+
+
 # ----------------------------------------------------------------------------- tight coupling
 class Coupler:
     """stand-in for interfaces.TightCoupler: whether interface k has converged after iteration n is an ARBITRARY
@@ -266,7 +286,7 @@ class CountingOperator(Operator):
 @lemma(gen={"cap": (1, 6), "cycle": (0, 3), "node": (0, 3)})
 def any_cap_iterations_stop_at_first_convergence_or_cap(cap: int, cycle: int, node: int):
     """cap is ANY integer >= 1 and the convergence pattern ANY boolean sequence (symbolic list): loop invariant"""
-    assume(cap >= 1)
+    assume(cap >= 1)  # (C) the setting has no lower bound; cap <= 0 raises UnboundLocalError: C15_stack_finding.py a_cap_of_zero_iterations_...; design round: candidate F7, dropped
     pat = sym_list("bool", "pat", maxlen=8)
     assume(len(pat) >= cap + 2)  # the pattern is longer than any run needs
     trace = []
